@@ -128,6 +128,10 @@ enum Move {
     Main { r: usize, i: usize, j: usize, comp: bool },
     Aux { r: usize, i: usize, j: usize, comp: bool },
     Cons { r: usize, j: usize, j2: usize, comp: bool },
+    /// two main-trace columns against each other (only when the coefficients live in the base field)
+    MainPair { r: usize, i: usize, i2: usize },
+    /// two auxiliary columns against each other
+    AuxPair { r: usize, i: usize, i2: usize },
     /// remainder + c * prod (x - x_i)
     Remainder { c: u64 },
 }
@@ -231,6 +235,22 @@ fn run_e<B: BaseF, H: HF<B>, E: FieldElement<BaseField = B>>(shape: &Arc<Shape>,
             for i in 0..a[0].len() {
                 moves.push(Move::Aux { r, i, j: 0, comp: true });
                 moves.push(Move::Aux { r, i, j: 0, comp: false });
+                for i2 in 0..a[0].len() {
+                    if i != i2 {
+                        moves.push(Move::AuxPair { r, i, i2 });
+                    }
+                }
+            }
+        }
+        // two columns of the same (main) opening: the substitute stays inside one commitment, so a
+        // row hash that does not bind some of its columns (seed C03b) is visible here
+        if E::EXTENSION_DEGREE == 1 {
+            for i in 0..w {
+                for i2 in [0, (i + 1) % w, w - 1] {
+                    if i != i2 {
+                        moves.push(Move::MainPair { r, i, i2 });
+                    }
+                }
             }
         }
         for j in 0..nq {
@@ -276,6 +296,19 @@ fn run_e<B: BaseF, H: HF<B>, E: FieldElement<BaseField = B>>(shape: &Arc<Shape>,
                     rw.cons[r][j2] -= rp.cc_cons[j] / rp.cc_cons[j2];
                     compensated = true;
                 }
+            },
+            Move::MainPair { r, i, i2 } => {
+                // coefficients and values are base-field elements here (E = B)
+                rw.main[r][i] += B::ONE;
+                let d = rp.cc_trace[i] / rp.cc_trace[i2];
+                rw.main[r][i2] -= d.base_element(0);
+                compensated = true;
+            },
+            Move::AuxPair { r, i, i2 } => {
+                let a = rw.aux.as_mut().unwrap();
+                a[r][i] += E::ONE;
+                a[r][i2] -= rp.cc_trace[w + i] / rp.cc_trace[w + i2];
+                compensated = true;
             },
             Move::Remainder { c } => {
                 // last-layer points of the (folded) query positions
@@ -380,6 +413,12 @@ fn jobs(thorough: bool) -> Vec<(Arc<Shape>, Cfg)> {
         mk("aux2x2/w3", Fid::F64, Hid::Blake3_256, 4, 8, 2, 4, 15, (1, 1)),
         mk("deg8+mulper", Fid::F128, Hid::Sha3_256, 3, 8, 1, 4, 7, (2, 2)),
         mk("long/n64", Fid::F62, Hid::Rp62_248, 4, 8, 2, 8, 7, (1, 1)),
+        // partitioned row hashes with every Rescue hasher and odd / even partition counts
+        mk("wide9", Fid::F64, Hid::Rp64_256, 3, 8, 1, 4, 7, (3, 2)),
+        mk("wide9", Fid::F64, Hid::RpJive64_256, 3, 8, 1, 4, 7, (5, 1)),
+        mk("wide17", Fid::F62, Hid::Rp62_248, 3, 8, 1, 4, 7, (3, 4)),
+        mk("wide9", Fid::F64, Hid::Blake3_256, 3, 8, 1, 4, 7, (3, 2)),
+        mk("aux2x2/w3", Fid::F64, Hid::Rp64_256, 3, 8, 2, 4, 7, (3, 1)),
     ];
     {
         v.extend([
